@@ -321,6 +321,14 @@ where
     }
 }
 
+/// A success type none of whose (required) fields any error of the corpus carries.
+#[derive(Debug, Deserialize)]
+#[allow(dead_code)]
+struct NothingLikeAnError {
+    zz_required_number: u64,
+    zz_required_text: String,
+}
+
 fn strip_nulls(v: &Value) -> Value {
     match v {
         Value::Object(m) => Value::Object(m.iter().filter(|(_, x)| !x.is_null()).map(|(k, x)| (k.clone(), strip_nulls(x))).collect()),
@@ -383,6 +391,30 @@ where
         }
         for text in texts {
             let text: &'a str = Box::leak(text.into_boxed_str());
+            // the same frame received over a connection by a caller whose success type has nothing in
+            // common with the error's parameters (and by one that expects no parameters): whatever
+            // order the members come in, it is the method's error
+            for strict in [true, false] {
+                let wire = Wire::new(0, None);
+                wire.arrive(text.as_bytes());
+                wire.arrive(&[0]);
+                let conn: &'a mut zlink_core::Connection<simnet::ScriptSocket> = Box::leak(Box::new(wire.connection()));
+                let got = if strict {
+                    simnet::complete_or_stall(conn.receive_reply::<NothingLikeAnError, E>()).map(|r| r.map(|r| r.map(|_| ())))
+                } else {
+                    simnet::complete_or_stall(conn.receive_reply::<(), E>()).map(|r| r.map(|r| r.map(|_| ())))
+                };
+                match got {
+                    Some(Ok(Err(d))) if d == *e => sink.pass(H64::new().s(tname).s(text).u(strict as u64).get()),
+                    // the standard service errors come back as the connection-level error
+                    Some(Err(zlink_core::Error::VarlinkService(d))) if tname.starts_with("varlink_service") && format!("{d:?}") == format!("{e:?}") => sink.pass(H64::new().s(tname).s(text).u(2 + strict as u64).get()),
+                    other => sink.fail(
+                        "envelope:valid-error-not-received-as-the-methods-error",
+                        format!("`{text}` received with receive_reply::<{}, {tname}> came back as {other:?}, expected Ok(Err({e:?}))", if strict { "a success type with other required fields" } else { "()" }),
+                        case(&what),
+                    ),
+                }
+            }
             match serde_json::from_str::<E>(text) {
                 Ok(d) if d == *e => sink.pass(H64::new().s(tname).s(text).get()),
                 Ok(d) => sink.fail("envelope:error-decoded-wrongly", format!("`{text}` decoded as {d:?}, expected {e:?}"), case(&what)),
